@@ -27,6 +27,9 @@ JAR = "/opt/veriftools/tla/tla2tools.jar:/opt/veriftools/tla/CommunityModules-de
 NCPU = os.cpu_count() or 4
 
 
+MODULE_PATH = "git.metabarcoding.org/obitools/obitools4/obitools4"
+
+
 class Inconclusive(Exception):
     pass
 
@@ -250,8 +253,25 @@ class Ctx:
         if p.returncode == 124:
             raise Inconclusive("harness timeout: %s" % args)
         if check and p.returncode != 0:
+            self.real_code_crash(p.stderr or "", args)
             raise Inconclusive("harness failed rc=%d: %s\n%s" % (p.returncode, args, (p.stderr or p.stdout)[-3000:]))
         return p
+
+    def real_code_crash(self, stderr, args):
+        """A Go run-time panic that kills the driver is a behaviour of the real code when the panicking frame
+        is a function of the repository's packages (a goroutine started by the library cannot be guarded by the
+        driver): it is reported as a violation (the run itself stays incomplete).  Any other death of the
+        driver is inconclusive."""
+        m = re.search(r"^(panic: .*|fatal error: .*)$", stderr, re.M)
+        g = re.search(r"^goroutine \d+ \[running\]:\n(?:panic\(.*\n\t.*\n|runtime\..*\n\t.*\n)*(\S+)\(", stderr, re.M)
+        if not m or not g:
+            return
+        top = g.group(1)
+        if not top.startswith(MODULE_PATH + "/pkg/"):
+            return
+        fn = top[len(MODULE_PATH) + 1:]
+        self.violation(self.pid + ".crash", fn, "the real code crashed the driver: %s in %s" % (m.group(1), fn),
+                       {"driver_args": [str(a) for a in args], "stderr_tail": stderr[-2500:]})
 
     def trace_validate(self, module, cfg, trace_path, timeout=600, workers=None, env=None, heap=None):
         """Stateless/stateful trace validation: TLC evaluates the trace spec on events recorded
